@@ -26,10 +26,12 @@ CHECKS = {
        "C08_fresh_ownership_invariant_any_version, the store staying empty until the first CONNECT determines the version), whatever "
        "the peer sends, under the application's side of the contract (identifiers handed to send() are held by the application; "
        "release_packet_id is not called for a stored packet's identifier; restore_packets is given packets of this version with identifiers "
-       "awaited nowhere); it yields the representation invariant ALSO across the oversize drop on resume. PARTIAL (C08_partial): the "
-       "per-call accounting 'announced releases = ids that turn free' for every other call (sends, acks, refusals, close, resume) and the "
-       "no-leak-on-close clause are decided by the monitor (in-use set from the hook, ghost of application-held ids) on the "
-       "implementation's traces, by the store stage (mon_c06: an accepted PUBLISH/PUBREL is sent or stored, so its identifier cannot leak) "
+       "awaited nowhere); it yields the representation invariant ALSO across the oversize drop on resume. RELEASE ACCOUNTING FOR EVERY CALL "
+       "(C08_step_accounts, C08_release_accounting: a walk through every function with its events): for every call other than acquire / "
+       "register / restore_packets, the identifiers announced as released in the call are pairwise distinct, each was in use before, and "
+       "afterwards exactly the announced ones have turned free — or every identifier is free (the wholesale reset of a new session). "
+       "PARTIAL (C08_partial): which calls may reset, and the no-leak-on-close clause as a statement about ownership ghosts, are decided by "
+       "the monitor (in-use set from the hook, ghost of application-held ids) on the implementation's traces, by the store stage (mon_c06: an accepted PUBLISH/PUBREL is sent or stored, so its identifier cannot leak) "
        "and by the allocator stage (C20's allocator correspondence and set-specification monitor on ValueAllocator traces whose range "
        "ends at the integer type's maximum: every id up to the maximum usable at once, exhaustion an error).",
   ref="DESIGN.md §3 C08",
